@@ -822,6 +822,15 @@ def gen_case(rng):
     elif y < 0.55:
         k = rng.randrange(n)
         tabs[k] = {'route': rand_route(rng, spec, False), 'mut': rand_mut(rng, spec)}
+        if rng.random() < 0.3:
+            # a second table that differs from the first in ANOTHER respect: the pair then differs in two respects at once
+            # (which of the two descriptive_equality reports is decided by the order of its tests)
+            k2 = rng.choice([x for x in range(n) if x != k])
+            for _ in range(8):
+                m2 = rand_mut(rng, spec)
+                if m2[0] != tabs[k]['mut'][0]:
+                    tabs[k2] = {'route': rand_route(rng, spec, False), 'mut': m2}
+                    break
     for t in tabs:
         # the ids in another container, the metadata categories of some entries in another insertion order
         t['opts'] = {'idform': rng.choice(IDFORMS) if rng.random() < 0.5 else 'list', 'mdrev': rng.choice([0, 0, 1, 2])}
